@@ -200,6 +200,8 @@ let () =
           let od = List.init 6 (fun i -> dy_of_hex t.(2 + i)) in
           let nh = int_of_string t.(8) in
           let hits = List.init nh (fun i -> (float_of_hex t.(9 + 5 * i), List.init 3 (fun k -> dy_of_hex t.(10 + 5 * i + k)))) in
+          let tds = List.init nh (fun i -> dy_of_hex t.(9 + 5 * i)) in
+          let tpar = ref true in
           let p3 emin l = match List.map (zof emin) l with [a; b; c] -> ((a, b), c) | _ -> failwith "p3" in
           let emin = emin_of (mesh_dys m @ od) in
           let tris = mesh_tris emin m in
@@ -227,7 +229,7 @@ let () =
           let sorted = ref true and prev = ref neg_infinity in
           List.iter (fun (d, _) -> if not (d >= !prev && d >= 0.0 && d <= 1.0) then sorted := false; prev := d) hits;
           let onsurf = ref true and onseg = ref true and cert = ref true in
-          List.iter (fun (_, pd) ->
+          List.iteri (fun hi (_, pd) ->
               if List.for_all (fun d -> d.fin) pd then begin
                 let em = min emin (emin_of pd) in
                 let tr = mesh_tris em m in
@@ -237,11 +239,21 @@ let () =
                 let tl = zmax (shr s 36) (z_of_int 1) in
                 let tol2 = qz (zmul tl tl) in
                 (match on_surface p tb tl tol2 with None -> cert := false | Some b -> if not b then onsurf := false);
-                (match pt_tri_dist2 p ((o, e), e) with None -> cert := false | Some d -> if not (qlt d tol2) then onseg := false)
+                (match pt_tri_dist2 p ((o, e), e) with None -> cert := false | Some d -> if not (qlt d tol2) then onseg := false);
+                (* the reported parameter: | o + t (e - o) - p |^2 < tol^2, exactly (t is a dyadic rational) *)
+                let td = List.nth tds hi in
+                if not td.fin then tpar := false
+                else begin
+                  let tq = qof 0 td in
+                  let comp f = let ov = qz (f o) and ev = qz (f e) and pv = qz (f p) in
+                    let dq = qminus (qplus ov (qmult tq (qminus ev ov))) pv in qmult dq dq in
+                  let d2 = qplus (comp (fun ((x, _), _) -> x)) (qplus (comp (fun ((_, y), _) -> y)) (comp (fun ((_, _), z) -> z))) in
+                  if not (qlt d2 tol2) then tpar := false
+                end
               end else onsurf := false) hits;
           if not !cert then Printf.printf "V %s ray CERTFAIL\n" id
-          else Printf.printf "V %s ray %d %d %d %d %d %d %d %d\n" id nh (int_of_z cr) (int_of_z dg) (int_of_z wo) (int_of_z we)
-              (b2i !sorted) (b2i !onsurf) (b2i !onseg)
+          else Printf.printf "V %s ray %d %d %d %d %d %d %d %d %d\n" id nh (int_of_z cr) (int_of_z dg) (int_of_z wo) (int_of_z we)
+              (b2i !sorted) (b2i !onsurf) (b2i !onseg) (b2i !tpar)
         | "W" ->
           let m = get mM in
           let pd = List.init 3 (fun i -> dy_of_hex t.(2 + i)) in
